@@ -1296,3 +1296,166 @@ Proof.
     vm_compute. reflexivity.
   - vm_compute. reflexivity.
 Qed.
+
+(* =================================================================================================
+   G. a segment that starts off the frequency grid; fields never run together
+   ================================================================================================= *)
+(* a new job (fresh module) whose first step it0 comes from a state file / the engine: the lines are at the ABSOLUTE
+   multiples of the frequency, wherever it0 lies with respect to the grid (in particular it0 itself gets a line only
+   if it is a multiple) *)
+Lemma restarted_segment_on_absolute_grid : forall freq c it0 n, (0 < freq)%Z ->
+  let steps := data_steps (snd (traj_run (traj_init freq c) (TRestart it0 :: run_events it0 n))) in
+  NoDup steps /\
+  (forall it, In it steps <-> ((it0 <= it < it0 + Z.of_nat n)%Z /\ (it mod freq = 0)%Z)) /\
+  (In it0 steps <-> ((1 <= n)%nat /\ (it0 mod freq = 0)%Z)).
+Proof.
+  intros freq c it0 n Hf. cbn [traj_run traj_event]. cbn zeta.
+  set (s1 := mkTS (t_freq (traj_init freq c)) (t_cfg (traj_init freq c)) (t_labels (traj_init freq c)) it0).
+  destruct (traj_run s1 (run_events it0 n)) as [s2 l2] eqn:E. cbn [snd app].
+  pose proof (one_line_per_multiple s1 it0 n) as H. cbn zeta in H. rewrite E in H. cbn [snd] in H.
+  assert (Hfr : t_freq s1 = freq) by reflexivity. rewrite Hfr in H. destruct (H Hf) as [Hnd Hin].
+  assert (Hiff : forall it, In it (data_steps l2) <-> (it0 <= it < it0 + Z.of_nat n)%Z /\ (it mod freq = 0)%Z).
+  { intros it. rewrite Hin. split; intros [Hr Hm]; split; try exact Hr.
+    - destruct Hm as [k ->]. apply Z_mod_mult.
+    - exists (it / freq)%Z. rewrite (Z.div_mod it freq) at 1 by lia. lia. }
+  split; [exact Hnd|]. split; [exact Hiff|].
+  rewrite Hiff. split; intros [H1 H2]; split; try exact H2; lia.
+Qed.
+
+(* the writers put at least one blank before every field and setw() never truncates: a line is the concatenation of
+   (one blank, padding to the width, the field's text); splitting it on blanks gives back the fields whatever their
+   lengths (numbers wider than the column do not merge with their neighbours) *)
+Definition pad_left (w : nat) (tok : list nat) : list nat := repeat 32%nat (w - length tok) ++ tok.
+Definition write_fields (w : nat) (toks : list (list nat)) : list nat :=
+  flat_map (fun tok => 32%nat :: pad_left w tok) toks.
+
+(* split on blanks, dropping empty pieces; cur is the piece being read (reversed) *)
+Fixpoint split_blanks (cur : list nat) (l : list nat) : list (list nat) :=
+  match l with
+  | [] => match cur with [] => [] | _ => [rev cur] end
+  | c :: r => if (c =? 32)%nat
+              then match cur with [] => split_blanks [] r | _ => rev cur :: split_blanks [] r end
+              else split_blanks (c :: cur) r
+  end.
+
+Lemma split_blanks_spaces : forall n r, split_blanks [] (repeat 32%nat n ++ r) = split_blanks [] r.
+Proof. induction n as [|n IH]; intros r; [reflexivity|]. cbn [repeat app split_blanks Nat.eqb]. apply IH. Qed.
+
+Lemma split_blanks_token : forall tok cur r, no_blank tok ->
+  split_blanks cur (tok ++ 32%nat :: r) = rev (rev tok ++ cur) :: split_blanks [] r \/ (tok = [] /\ cur = []).
+Proof.
+  induction tok as [|c tok IH]; intros cur r Hn.
+  - cbn [app split_blanks Nat.eqb rev]. destruct cur as [|d cur]; [right; split; reflexivity|left; reflexivity].
+  - inversion Hn as [|? ? Hc Hn']; subst. cbn [app split_blanks].
+    destruct (c =? 32)%nat eqn:E; [apply Nat.eqb_eq in E; contradiction|].
+    destruct (IH (c :: cur) r Hn') as [H|[_ H]]; [|discriminate].
+    left. rewrite H. cbn [rev]. rewrite <- app_assoc. reflexivity.
+Qed.
+
+Lemma split_blanks_last_token : forall tok cur, no_blank tok -> (tok <> [] \/ cur <> []) ->
+  split_blanks cur tok = [rev (rev tok ++ cur)].
+Proof.
+  induction tok as [|c tok IH]; intros cur Hn Hne.
+  - cbn [split_blanks rev app]. destruct cur; [destruct Hne as [H|H]; congruence|reflexivity].
+  - inversion Hn as [|? ? Hc Hn']; subst. cbn [split_blanks].
+    destruct (c =? 32)%nat eqn:E; [apply Nat.eqb_eq in E; contradiction|].
+    rewrite IH by (try assumption; right; discriminate). cbn [rev]. rewrite <- app_assoc. reflexivity.
+Qed.
+
+Lemma fields_never_merge : forall w toks,
+  Forall (fun t => no_blank t /\ t <> []) toks -> split_blanks [] (write_fields w toks) = toks.
+Proof.
+  intros w toks. induction toks as [|t toks IH]; intros H; [reflexivity|].
+  inversion H as [|? ? [Hn Hne] H']; subst. specialize (IH H').
+  unfold write_fields in *. cbn [flat_map]. cbn [app split_blanks Nat.eqb]. unfold pad_left.
+  rewrite <- app_assoc, split_blanks_spaces.
+  destruct toks as [|t2 toks].
+  - cbn [flat_map]. rewrite app_nil_r. rewrite split_blanks_last_token by (try assumption; left; assumption).
+    rewrite app_nil_r, rev_involutive. reflexivity.
+  - cbn [flat_map] in *. cbn [app].
+    destruct (split_blanks_token t [] (pad_left w t2 ++ flat_map (fun tok => 32%nat :: pad_left w tok) toks) Hn) as [Hs|[Hs _]]; [|contradiction].
+    unfold pad_left in *. rewrite Hs, app_nil_r, rev_involutive. f_equal.
+    cbn [app split_blanks Nat.eqb] in IH. exact IH.
+Qed.
+
+(* =================================================================================================
+   H. ABF history blocks; buffered record files
+   ================================================================================================= *)
+Lemma abf_hist_nodup : forall hf w last,
+  NoDup w -> (match last with Some l => ~ In l w | None => True end) ->
+  abf_hist hf last w = filter (fun it => (0 <? hf)%Z && (it mod hf =? 0)%Z) w.
+Proof.
+  intros hf w. induction w as [|it r IH]; intros last Hnd Hl; [reflexivity|].
+  inversion Hnd as [|? ? Hnot Hnd']; subst. cbn [abf_hist filter].
+  assert (Hne : negb (match last with Some l => (l =? it)%Z | None => false end) = true).
+  { destruct last as [l|]; [|reflexivity]. destruct (l =? it)%Z eqn:E; [|reflexivity].
+    apply Z.eqb_eq in E. exfalso. apply Hl. left. symmetry. exact E. }
+  rewrite Hne, andb_true_r.
+  destruct ((0 <? hf)%Z && (it mod hf =? 0)%Z).
+  - f_equal. apply IH; [exact Hnd'|exact Hnot].
+  - apply IH; [exact Hnd'|]. destruct last as [l|]; [|exact I]. intros Hin. apply Hl. right. exact Hin.
+Qed.
+
+(* a write repeated for the same step (run boundary) adds no second block *)
+Lemma abf_hist_repeated : forall hf it r, abf_hist hf (Some it) (it :: r) = abf_hist hf (Some it) r.
+Proof. intros. cbn [abf_hist]. rewrite Z.eqb_refl. cbn [negb]. rewrite andb_false_r. reflexivity. Qed.
+
+Lemma flush_run_invariant : forall R (evs : list (fevent R)) file buf,
+  let '(f, b) := flush_run file buf evs in f ++ b = file ++ buf ++ records_of evs.
+Proof.
+  intros R evs. induction evs as [|e evs IH]; intros file buf.
+  - cbn [flush_run records_of flat_map]. rewrite app_nil_r. reflexivity.
+  - destruct e as [r|]; cbn [flush_run].
+    + specialize (IH file (buf ++ [r])). destruct (flush_run file (buf ++ [r]) evs) as [f b]. rewrite IH.
+      unfold records_of. cbn [flat_map]. rewrite <- !app_assoc. reflexivity.
+    + specialize (IH (file ++ buf) []). destruct (flush_run (file ++ buf) [] evs) as [f b]. rewrite IH.
+      unfold records_of. cbn [flat_map app]. rewrite <- app_assoc. reflexivity.
+Qed.
+
+(* after a write the file holds every record made so far, in order *)
+Lemma flush_run_complete : forall R (evs : list (fevent R)),
+  fst (flush_run [] [] (evs ++ [FFlush])) = records_of evs.
+Proof.
+  intros R evs.
+  assert (H : forall file buf, flush_run file buf (evs ++ [FFlush]) =
+                               let '(f, b) := flush_run file buf evs in (f ++ b, [])).
+  { induction evs as [|e evs IH]; intros file buf; [reflexivity|].
+    destruct e as [r|]; cbn [app flush_run]; apply IH. }
+  rewrite H. pose proof (flush_run_invariant R evs [] []) as Hi. destruct (flush_run [] [] evs) as [f b].
+  cbn [fst]. rewrite Hi. reflexivity.
+Qed.
+
+(* =================================================================================================
+   I. quaternion metric used for the deviations: q and -q are the same rotation
+   ================================================================================================= *)
+Section QuatMetric.
+  Local Open Scope R_scope.
+  Lemma vdot_opp : forall a b : list R, vdot Rops (map Ropp a) b = - vdot Rops a b.
+  Proof.
+    induction a as [|x a IH]; intros b; cbn [map vdot Rops n0]; [ring|].
+    destruct b as [|y b]; cbn [vdot Rops n0 nadd nmul]; [ring|]. rewrite IH. cbn [Rops nadd nmul]. ring.
+  Qed.
+
+  Lemma acos_m1 : acos (- (1)) = PI.
+  Proof. rewrite acos_opp, acos_1. ring. Qed.
+
+  Lemma quat_dist2_antipodal : forall a b : list R, -1 <= vdot Rops a b <= 1 ->
+    lv_dist2 Rops KQuat (map Ropp a) b = lv_dist2 Rops KQuat a b.
+  Proof.
+    intros a b Hc. unfold lv_dist2. rewrite vdot_opp. set (c := vdot Rops a b) in *.
+    cbn [Rops nltb n1 n0 nneg nacos nsub nmul].
+    assert (C1 : Rltb 1 c = false) by (apply Rltb_false; lra).
+    assert (C2 : Rltb c (- (1)) = false) by (apply Rltb_false; lra).
+    assert (C3 : Rltb 1 (- c) = false) by (apply Rltb_false; lra).
+    assert (C4 : Rltb (- c) (- (1)) = false) by (apply Rltb_false; lra).
+    rewrite C1, C2, C3, C4, acos_m1, acos_opp.
+    destruct (Rlt_dec 0 c) as [Hp|Hp].
+    - replace (Rltb 0 c) with true by (symmetry; apply Rltb_true; exact Hp).
+      replace (Rltb 0 (- c)) with false by (symmetry; apply Rltb_false; lra). ring.
+    - replace (Rltb 0 c) with false by (symmetry; apply Rltb_false; lra).
+      destruct (Rlt_dec c 0) as [Hn|Hn].
+      + replace (Rltb 0 (- c)) with true by (symmetry; apply Rltb_true; lra). ring.
+      + replace (Rltb 0 (- c)) with false by (symmetry; apply Rltb_false; lra).
+        assert (Hz : c = 0) by lra. rewrite Hz, acos_0. field.
+  Qed.
+End QuatMetric.
